@@ -1,4 +1,5 @@
 import NdnModel.ClientConf
+import NdnProofs.Lemmas.PyDict
 /-! Helper lemmas for C20: `part`, `afterLast`, `dirname`, `join`, `takeWhile`/`dropWhile`, `getPath`, `fileGet`,
     the default-transport decision table. -/
 namespace Ndn.ClientConf
@@ -137,49 +138,430 @@ theorem find_first (paths : List Str) (ex : Str → Bool) (pre post : List Str) 
     simp only [List.cons_append, List.find?, this]
     exact ih (fun q hq => hpre q (by simp [hq]))
 
-theorem fileGet_some (ls : List Line) (key v : Str) (h : fileGet ls key = some v) :
-    ∃ pre post k, ls = pre ++ Line.kv k v :: post ∧ lower k = key ∧
-      ∀ k' v', Line.kv k' v' ∈ pre → lower k' ≠ key := by
-  induction ls with
-  | nil => simp [fileGet] at h
-  | cons l r ih =>
-    cases l with
-    | other =>
-      obtain ⟨pre, post, k, h1, h2, h3⟩ := ih (by simpa [fileGet] using h)
-      refine ⟨.other :: pre, post, k, by simp [h1], h2, ?_⟩
-      intro k' v' hm
-      rcases List.mem_cons.mp hm with e | e
-      · cases e
-      · exact h3 k' v' e
-    | kv k0 v0 =>
-      by_cases hk : lower k0 = key
-      · have : v0 = v := by simpa [fileGet, hk] using h
-        exact ⟨[], r, k0, by simp [this], hk, by simp⟩
-      · obtain ⟨pre, post, k, h1, h2, h3⟩ := ih (by simpa [fileGet, hk] using h)
-        refine ⟨.kv k0 v0 :: pre, post, k, by simp [h1], h2, ?_⟩
-        intro k' v' hm
-        rcases List.mem_cons.mp hm with e | e
-        · cases e; exact hk
-        · exact h3 k' v' e
+/-! ### configparser: specification vocabulary -/
 
-theorem fileGet_none (ls : List Line) (key : Str) (h : fileGet ls key = none) :
-    ∀ k v, Line.kv k v ∈ ls → lower k ≠ key := by
-  induction ls with
-  | nil => simp
-  | cons l r ih =>
-    cases l with
-    | other =>
-      intro k v hm
-      rcases List.mem_cons.mp hm with e | e
-      · cases e
-      · exact ih (by simpa [fileGet] using h) k v e
-    | kv k0 v0 =>
-      by_cases hk : lower k0 = key
-      · simp [fileGet, hk] at h
-      · intro k v hm
-        rcases List.mem_cons.mp hm with e | e
-        · cases e; exact hk
-        · exact ih (by simpa [fileGet, hk] using h) k v e
+/-- the option assignments of the DEFAULT section(s), in file order: (name as written, joined value) -/
+def defaultOptions : Option Str → List Item → List (Str × Str)
+  | _, [] => []
+  | _, .header n :: r => defaultOptions (some n) r
+  | s, .option k ps :: r =>
+    (if s = some dfltName then [(k, joinPieces ps)] else []) ++ defaultOptions s r
+  | s, .bogus :: r => defaultOptions s r
+
+/-- names of the sections opened (other than DEFAULT), in order -/
+def headers : List Item → List Str
+  | [] => []
+  | .header n :: r => (if n = dfltName then [] else [n]) ++ headers r
+  | _ :: r => headers r
+
+/-- (section, lower-cased option name) of every option line, in order -/
+def qualified : Option Str → List Item → List (Str × Str)
+  | _, [] => []
+  | _, .header n :: r => qualified (some n) r
+  | s, .option k _ :: r => (match s with | some n => [(n, lower k)] | none => []) ++ qualified s r
+  | s, .bogus :: r => qualified s r
+
+/-- an option or stray line before any section header -/
+def orphan : Option Str → List Item → Bool
+  | _, [] => false
+  | _, .header _ :: _ => false
+  | none, _ :: _ => true
+  | some s, _ :: r => orphan (some s) r
+
+/-- a line that is neither header nor option, or an option with an empty name -/
+def hasBogus : List Item → Bool
+  | [] => false
+  | .bogus :: _ => true
+  | .option k _ :: r => decide (k = []) || hasBogus r
+  | .header _ :: r => hasBogus r
+
+/-- pairwise different and not seen before -/
+def Fresh {β : Type} (seen xs : List β) : Prop := xs.Nodup ∧ ∀ x ∈ xs, x ∉ seen
+
+theorem fresh_nil {β : Type} (seen : List β) : Fresh seen [] := ⟨List.nodup_nil, by simp⟩
+
+theorem fresh_cons {β : Type} (seen xs : List β) (x : β) :
+    Fresh seen (x :: xs) ↔ x ∉ seen ∧ Fresh (x :: seen) xs := by
+  unfold Fresh
+  simp only [List.nodup_cons, List.mem_cons, forall_eq_or_imp, not_or]
+  constructor
+  · rintro ⟨⟨h1, h2⟩, h3, h4⟩
+    exact ⟨h3, h2, fun y hy => ⟨fun e => h1 (e ▸ hy), h4 y hy⟩⟩
+  · rintro ⟨h3, h2, h4⟩
+    exact ⟨⟨fun hx => (h4 x hx).1 rfl, h2⟩, h3, fun y hy => (h4 y hy).2⟩
+
+theorem set_of_not_mem (d : PyDict Str Str) (k v : Str) (h : k ∉ PyDict.keys d) :
+    PyDict.set d k v = d ++ [(k, v)] := by
+  induction d with
+  | nil => simp [PyDict.set]
+  | cons p r ih =>
+    obtain ⟨a, b⟩ := p
+    simp only [PyDict.keys, List.map_cons, List.mem_cons, not_or] at h
+    have : ¬ a = k := fun e => h.1 e.symm
+    simp [PyDict.set, this, ih (by simpa [PyDict.keys] using h.2)]
+
+/-! ### the second pass -/
+
+theorem orphan_some (s : Str) (items : List Item) : orphan (some s) items = false := by
+  induction items with
+  | nil => rfl
+  | cons it r ih => cases it <;> simp [orphan, ih]
+
+theorem foldlM_istep_ok_iff (items : List Item) (st : IState) :
+    (∃ st', items.foldlM istep st = .ok st') ↔
+      Fresh st.sects (headers items) ∧ Fresh st.added (qualified st.sect items) ∧ orphan st.sect items = false := by
+  induction items generalizing st with
+  | nil => simp [headers, qualified, orphan, fresh_nil, pure, Except.pure]
+  | cons it r ih =>
+    simp only [List.foldlM_cons, bind, Except.bind]
+    cases it with
+    | header n =>
+      simp only [istep, headers, qualified, orphan]
+      by_cases hn : n = dfltName
+      · simp only [hn, if_true, List.nil_append]
+        rw [ih]
+        simp [orphan_some]
+      · simp only [hn, if_false, List.singleton_append, fresh_cons]
+        by_cases hc : n ∈ st.sects
+        · simp [hc]
+        · simp only [List.contains_iff_mem, hc, if_false, not_false_eq_true, true_and]
+          rw [ih]
+          simp [orphan_some]
+    | option k ps =>
+      cases hs : st.sect with
+      | none => simp [istep, hs, orphan]
+      | some s =>
+        simp only [istep, hs, qualified, orphan, List.singleton_append, fresh_cons]
+        by_cases hc : (s, lower k) ∈ st.added
+        · simp [hc]
+        · simp only [List.contains_iff_mem, hc, if_false, not_false_eq_true, true_and]
+          rw [ih]
+          simp [headers]
+    | bogus =>
+      cases hs : st.sect with
+      | none => simp [istep, hs, orphan]
+      | some s =>
+        simp only [istep, hs, qualified, orphan, headers]
+        rw [ih]
+
+theorem foldlM_istep_bad (items : List Item) (st st' : IState) (h : items.foldlM istep st = .ok st') :
+    st'.bad = (st.bad || hasBogus items) := by
+  induction items generalizing st with
+  | nil =>
+    simp only [List.foldlM_nil, pure, Except.pure, Except.ok.injEq] at h
+    subst h; simp [hasBogus]
+  | cons it r ih =>
+    simp only [List.foldlM_cons, bind, Except.bind] at h
+    cases hs : istep st it with
+    | error e => simp [hs] at h
+    | ok s1 =>
+      simp only [hs] at h
+      rw [ih s1 h]
+      cases it with
+      | header n =>
+        simp only [istep] at hs
+        split at hs
+        · cases hs; simp [hasBogus]
+        · split at hs
+          · cases hs
+          · cases hs; simp [hasBogus]
+      | option k ps =>
+        simp only [istep] at hs
+        split at hs
+        · cases hs
+        · split at hs
+          · cases hs
+          · cases hs; simp [hasBogus, Bool.or_assoc]
+      | bogus =>
+        simp only [istep] at hs
+        split at hs
+        · cases hs
+        · cases hs; simp [hasBogus]
+
+theorem foldlM_istep_dflt (items : List Item) (st st' : IState) (h : items.foldlM istep st = .ok st')
+    (hinv : ∀ k ∈ PyDict.keys st.dflt, (dfltName, k) ∈ st.added) :
+    st'.dflt = st.dflt ++ (defaultOptions st.sect items).map (fun p => (lower p.1, p.2)) := by
+  induction items generalizing st with
+  | nil =>
+    simp only [List.foldlM_nil, pure, Except.pure, Except.ok.injEq] at h
+    subst h; simp [defaultOptions]
+  | cons it r ih =>
+    simp only [List.foldlM_cons, bind, Except.bind] at h
+    cases hs : istep st it with
+    | error e => simp [hs] at h
+    | ok s1 =>
+      simp only [hs] at h
+      cases it with
+      | header n =>
+        simp only [istep] at hs
+        split at hs
+        · cases hs; rw [ih _ h hinv]; simp_all [defaultOptions]
+        · split at hs
+          · cases hs
+          · cases hs; rw [ih _ h hinv]; simp [defaultOptions]
+      | option k ps =>
+        simp only [istep] at hs
+        split at hs
+        · cases hs
+        · rename_i s hsec
+          split at hs
+          · cases hs
+          · rename_i hc
+            cases hs
+            by_cases hd : s = dfltName
+            · subst hd
+              have hk : lower k ∉ PyDict.keys st.dflt := by
+                intro hm
+                exact hc (List.contains_iff_mem.2 (hinv _ hm))
+              rw [ih _ h]
+              · simp [defaultOptions, hsec, set_of_not_mem _ _ _ hk]
+              · intro k' hk'
+                simp only [if_true, set_of_not_mem _ _ _ hk, PyDict.keys, List.map_append, List.map_cons,
+                  List.map_nil, List.mem_append, List.mem_singleton] at hk'
+                rcases hk' with hk' | rfl
+                · exact List.mem_cons_of_mem _ (hinv _ (by simpa [PyDict.keys] using hk'))
+                · simp
+            · rw [ih _ h]
+              · simp [defaultOptions, hsec, hd]
+              · intro k' hk'
+                simp only [hd, if_false] at hk'
+                exact List.mem_cons_of_mem _ (hinv _ hk')
+      | bogus =>
+        simp only [istep] at hs
+        split at hs
+        · cases hs
+        · cases hs; rw [ih _ h hinv]; simp [defaultOptions]
+
+theorem foldlM_istep_err (items : List Item) (st : IState) (e : ConfErr) (h : items.foldlM istep st = .error e) :
+    e ≠ .parsing ∧ (e = .missingSectionHeader → orphan st.sect items = true) ∧
+      (e = .duplicateSection → ¬ Fresh st.sects (headers items)) ∧
+      (e = .duplicateOption → ¬ Fresh st.added (qualified st.sect items)) := by
+  induction items generalizing st with
+  | nil => simp [pure, Except.pure] at h
+  | cons it r ih =>
+    simp only [List.foldlM_cons, bind, Except.bind] at h
+    cases hs : istep st it with
+    | error e' =>
+      simp only [hs, Except.error.injEq] at h
+      subst h
+      cases it with
+      | header n =>
+        simp only [istep] at hs
+        split at hs
+        · cases hs
+        · rename_i hn
+          split at hs
+          · rename_i hc
+            cases hs
+            refine ⟨by simp, by simp, fun _ hf => ?_, by simp⟩
+            simp only [headers, hn, if_false, List.singleton_append, fresh_cons] at hf
+            exact hf.1 (List.contains_iff_mem.1 hc)
+          · cases hs
+      | option k ps =>
+        simp only [istep] at hs
+        split at hs
+        · rename_i hsec; cases hs; simp [orphan, hsec]
+        · rename_i s hsec
+          split at hs
+          · rename_i hc
+            cases hs
+            refine ⟨by simp, by simp, by simp, fun _ hf => ?_⟩
+            simp only [qualified, hsec, List.singleton_append, fresh_cons] at hf
+            exact hf.1 (List.contains_iff_mem.1 hc)
+          · cases hs
+      | bogus =>
+        simp only [istep] at hs
+        split at hs
+        · rename_i hsec; cases hs; simp [orphan, hsec]
+        · cases hs
+    | ok s1 =>
+      simp only [hs] at h
+      obtain ⟨h1, h2, h3, h4⟩ := ih s1 h
+      cases it with
+      | header n =>
+        simp only [istep] at hs
+        split at hs
+        · rename_i hn
+          cases hs
+          refine ⟨h1, fun he => ?_, fun he => ?_, fun he => ?_⟩
+          · have := h2 he; simp [orphan_some] at this
+          · simpa [headers, hn] using h3 he
+          · simpa [qualified] using h4 he
+        · rename_i hn
+          split at hs
+          · cases hs
+          · rename_i hc
+            cases hs
+            refine ⟨h1, fun he => ?_, fun he hf => ?_, fun he => ?_⟩
+            · have := h2 he; simp [orphan_some] at this
+            · simp only [headers, hn, if_false, List.singleton_append, fresh_cons] at hf
+              exact h3 he hf.2
+            · simpa [qualified] using h4 he
+      | option k ps =>
+        simp only [istep] at hs
+        split at hs
+        · cases hs
+        · rename_i s hsec
+          split at hs
+          · cases hs
+          · cases hs
+            refine ⟨h1, fun he => ?_, fun he => ?_, fun he hf => ?_⟩
+            · have := h2 he; simp [hsec, orphan_some] at this
+            · simpa [headers] using h3 he
+            · simp only [qualified, hsec, List.singleton_append, fresh_cons] at hf
+              exact h4 he (by simpa [hsec] using hf.2)
+      | bogus =>
+        simp only [istep] at hs
+        split at hs
+        · cases hs
+        · rename_i s hsec
+          cases hs
+          refine ⟨h1, fun he => ?_, fun he => ?_, fun he => ?_⟩
+          · have := h2 he; simp [hsec, orphan_some] at this
+          · simpa [headers] using h3 he
+          · simpa [qualified, hsec] using h4 he
+
+/-! ### `parseConf` -/
+
+theorem logical_cons (ls : List Str) : logical ls = .header dfltName :: (scan false 0 ls).2 := rfl
+
+/-- the option assignments of the DEFAULT section of a configuration file, in file order -/
+def assignments (ls : List Str) : List (Str × Str) := defaultOptions none (logical ls)
+
+theorem parseConf_ok (ls : List Str) (d : PyDict Str Str) (h : parseConf ls = .ok d) :
+    d = (assignments ls).map (fun p => (lower p.1, p.2)) := by
+  unfold parseConf interpret at h
+  split at h
+  · cases h
+  · rename_i st hst
+    split at h
+    · cases h
+    · cases h
+      simpa [assignments] using foldlM_istep_dflt _ _ _ hst (by simp [PyDict.keys])
+
+theorem parseConf_ok_iff (ls : List Str) :
+    (∃ d, parseConf ls = .ok d) ↔
+      (headers (logical ls)).Nodup ∧ (qualified none (logical ls)).Nodup ∧ hasBogus (logical ls) = false := by
+  have hiff := foldlM_istep_ok_iff (logical ls) ⟨none, [], [], [], false⟩
+  simp only [Fresh, List.not_mem_nil, not_false_eq_true, implies_true, and_true] at hiff
+  have horph : orphan none (logical ls) = false := by rw [logical_cons]; rfl
+  simp only [horph, and_true] at hiff
+  unfold parseConf interpret
+  constructor
+  · rintro ⟨d, h⟩
+    split at h
+    · cases h
+    · rename_i st hst
+      have hb := foldlM_istep_bad _ _ _ hst
+      split at h
+      · cases h
+      · rename_i hbad
+        have := hiff.1 ⟨st, hst⟩
+        refine ⟨this.1, this.2, ?_⟩
+        simpa [hb] using hbad
+  · rintro ⟨h1, h2, h3⟩
+    obtain ⟨st, hst⟩ := hiff.2 ⟨h1, h2⟩
+    have hb := foldlM_istep_bad _ _ _ hst
+    simp only [hst]
+    simp [hb, h3]
+
+theorem parseConf_parsing_iff (ls : List Str) :
+    parseConf ls = .error .parsing ↔
+      (headers (logical ls)).Nodup ∧ (qualified none (logical ls)).Nodup ∧ hasBogus (logical ls) = true := by
+  have hiff := foldlM_istep_ok_iff (logical ls) ⟨none, [], [], [], false⟩
+  simp only [Fresh, List.not_mem_nil, not_false_eq_true, implies_true, and_true] at hiff
+  have horph : orphan none (logical ls) = false := by rw [logical_cons]; rfl
+  simp only [horph, and_true] at hiff
+  unfold parseConf interpret
+  constructor
+  · intro h
+    split at h
+    · rename_i e he
+      cases h
+      exact absurd rfl (foldlM_istep_err _ _ _ he).1
+    · rename_i st hst
+      have hb := foldlM_istep_bad _ _ _ hst
+      have := hiff.1 ⟨st, hst⟩
+      split at h
+      · rename_i hbad
+        refine ⟨this.1, this.2, ?_⟩
+        simpa [hb] using hbad
+      · cases h
+  · rintro ⟨h1, h2, h3⟩
+    obtain ⟨st, hst⟩ := hiff.2 ⟨h1, h2⟩
+    have hb := foldlM_istep_bad _ _ _ hst
+    simp only [hst]
+    simp [hb, h3]
+
+theorem parseConf_error (ls : List Str) (e : ConfErr) (h : parseConf ls = .error e) :
+    e ≠ .missingSectionHeader ∧ (e = .duplicateSection → ¬ (headers (logical ls)).Nodup) ∧
+      (e = .duplicateOption → ¬ (qualified none (logical ls)).Nodup) := by
+  have horph : orphan none (logical ls) = false := by rw [logical_cons]; rfl
+  unfold parseConf interpret at h
+  split at h
+  · rename_i e' he
+    cases h
+    obtain ⟨_, h2, h3, h4⟩ := foldlM_istep_err _ _ _ he
+    refine ⟨fun hm => ?_, fun hm hn => h3 hm ⟨hn, by simp⟩, fun hm hn => h4 hm ⟨hn, by simp⟩⟩
+    have := h2 hm
+    simp [horph] at this
+  · split at h
+    · cases h; simp
+    · cases h
+
+theorem find_split {β : Type} (l : List β) (p : β → Bool) (x : β) (h : l.find? p = some x) :
+    ∃ pre post, l = pre ++ x :: post ∧ p x = true ∧ ∀ y ∈ pre, p y = false := by
+  induction l with
+  | nil => simp at h
+  | cons a r ih =>
+    by_cases ha : p a = true
+    · simp only [List.find?, ha, Option.some.injEq] at h
+      subst h; exact ⟨[], r, rfl, ha, by simp⟩
+    · simp only [Bool.not_eq_true] at ha
+      simp only [List.find?, ha] at h
+      obtain ⟨pre, post, h1, h2, h3⟩ := ih h
+      refine ⟨a :: pre, post, by simp [h1], h2, ?_⟩
+      intro y hy
+      rcases List.mem_cons.1 hy with rfl | hy
+      · exact ha
+      · exact h3 y hy
+
+theorem get?_map_lower (l : List (Str × Str)) (key : Str) :
+    PyDict.get? (l.map (fun p => (lower p.1, p.2))) key = (l.find? (fun p => decide (lower p.1 = key))).map (·.2) := by
+  induction l with
+  | nil => simp [PyDict.get?]
+  | cons a r ih =>
+    by_cases h : lower a.1 = key
+    · simp [PyDict.get?, List.find?, h]
+    · simp [PyDict.get?, List.find?, h, ih]
+
+theorem fileGet_some (ls : List Str) (key v : Str) (h : fileGet ls key = some v) :
+    ∃ pre post k, assignments ls = pre ++ (k, v) :: post ∧ lower k = key ∧
+      ∀ k' v', (k', v') ∈ pre → lower k' ≠ key := by
+  unfold fileGet at h
+  split at h
+  · rename_i d hd
+    rw [parseConf_ok ls d hd, get?_map_lower] at h
+    simp only [Option.map_eq_some_iff] at h
+    obtain ⟨⟨k, v'⟩, hf, rfl⟩ := h
+    obtain ⟨pre, post, h1, h2, h3⟩ := find_split _ _ _ hf
+    refine ⟨pre, post, k, h1, by simpa using h2, ?_⟩
+    intro k' v' hm
+    simpa using h3 _ hm
+  · cases h
+
+theorem fileGet_none (ls : List Str) (key : Str) (hok : confFails ls = false) (h : fileGet ls key = none) :
+    ∀ k v, (k, v) ∈ assignments ls → lower k ≠ key := by
+  unfold confFails at hok
+  unfold fileGet at h
+  split at h
+  · rename_i d hd
+    rw [parseConf_ok ls d hd, get?_map_lower] at h
+    simp only [Option.map_eq_none_iff, List.find?_eq_none, decide_eq_true_eq] at h
+    intro k v hm
+    exact h _ hm
+  · rename_i e he
+    simp [he] at hok
 
 /-! ### the default-transport decision table -/
 
